@@ -34,6 +34,7 @@ THEOREMS = [
     "Optyx.Props.C05.names_eq_of_sorted",
     "Optyx.Props.C05.extractLP_sound",
     "Optyx.Props.Glue.lpRows_table",
+    "Optyx.Props.Glue.lpExtract_text",
     "Optyx.Props.C05.shortcutInv_iff_sizes",
     "Optyx.Props.C05.walker_sound_of_source_equations",
     "Optyx.Props.C05.lp_source_equations_solvable",
